@@ -305,3 +305,62 @@ package callbacks
 //@ func Query RawExec
 //@   tags C05
 //@   ensures driver-error-recorded: old(drvErrPending) == 0 ==> drvErrPending == 0 [C05]
+
+//@ # ---------- C05/C13: the implicit transaction brackets the whole write pipeline ----------
+//@ # Hooks "use the operation's own transaction" and "everything the operation did is rolled back": in each of the
+//@ # create / update / delete pipelines the first callback registered is gorm:begin_transaction and the last one is
+//@ # gorm:commit_or_rollback_transaction (registration order is execution order: C17). Both are conditional on the
+//@ # default transaction being enabled (Match).
+//@ ghost writePipeline registeredInPipeline commitRegistered
+//@ event call (*callbacks).Create
+//@   in callbacks.RegisterDefaultCallbacks
+//@   requires previous-pipeline-closed: writePipeline == 1 ==> commitRegistered == 1 [C05]
+//@   do writePipeline = 1
+//@   do registeredInPipeline = 0
+//@   do commitRegistered = 0
+//@ event call (*callbacks).Update
+//@   in callbacks.RegisterDefaultCallbacks
+//@   requires previous-pipeline-closed: writePipeline == 1 ==> commitRegistered == 1 [C05]
+//@   do writePipeline = 1
+//@   do registeredInPipeline = 0
+//@   do commitRegistered = 0
+//@ event call (*callbacks).Delete
+//@   in callbacks.RegisterDefaultCallbacks
+//@   requires previous-pipeline-closed: writePipeline == 1 ==> commitRegistered == 1 [C05]
+//@   do writePipeline = 1
+//@   do registeredInPipeline = 0
+//@   do commitRegistered = 0
+//@ event call (*callbacks).Query
+//@   in callbacks.RegisterDefaultCallbacks
+//@   requires previous-pipeline-closed: writePipeline == 1 ==> commitRegistered == 1 [C05]
+//@   do writePipeline = 0
+//@ event call (*callbacks).Row
+//@   in callbacks.RegisterDefaultCallbacks
+//@   requires previous-pipeline-closed: writePipeline == 1 ==> commitRegistered == 1 [C05]
+//@   do writePipeline = 0
+//@ event call (*callbacks).Raw
+//@   in callbacks.RegisterDefaultCallbacks
+//@   requires previous-pipeline-closed: writePipeline == 1 ==> commitRegistered == 1 [C05]
+//@   do writePipeline = 0
+//@ event call (*processor).Register
+//@   in callbacks.RegisterDefaultCallbacks
+//@   do registeredInPipeline = registeredInPipeline + 1
+//@ event call (*callback).Register
+//@   in callbacks.RegisterDefaultCallbacks
+//@   do registeredInPipeline = registeredInPipeline + 1
+//@   do commitRegistered = ite(arg1 == "gorm:commit_or_rollback_transaction", 1, commitRegistered)
+//@ site unconditional-callbacks-sit-inside-the-transaction
+//@   match call gorm.(*processor).Register
+//@   in callbacks.RegisterDefaultCallbacks
+//@   min-sites 20
+//@   assert not-first-in-a-write-pipeline: writePipeline == 1 ==> registeredInPipeline >= 1 [C05,C13]
+//@   assert not-after-the-commit: writePipeline == 1 ==> commitRegistered == 0 [C05,C13]
+//@ site transaction-callbacks-bracket-the-pipeline
+//@   match call gorm.(*callback).Register
+//@   in callbacks.RegisterDefaultCallbacks
+//@   min-sites 6
+//@   assert begin-first-commit-later: (registeredInPipeline == 0 && arg1 == "gorm:begin_transaction") || (registeredInPipeline >= 1 && commitRegistered == 0 && arg1 == "gorm:commit_or_rollback_transaction") [C05,C13]
+//@   assert in-a-write-pipeline: writePipeline == 1 [C05]
+//@ func RegisterDefaultCallbacks
+//@   tags C05 C13
+//@   ensures last-pipeline-closed: writePipeline == 1 ==> commitRegistered == 1
